@@ -194,4 +194,4 @@ def run(report, findings):
         "rule": "distinct (formula, data seed): 23 effect expressions x 6 grouping expressions + 10 multi-term combinations on fully "
                 "crossed data; non-trivial = block structure, group order and per-factor rank/span all verified",
         "samples": allkeys[:3] + allkeys[-3:], "known_failing_inputs_listed": len(known), "new_failures": bad})
-    report.assumptions = ["rank / span are numeric (SVD, least squares)"]
+    report.assumptions = list(dict.fromkeys(list(report.assumptions) + ["rank / span are numeric (SVD, least squares)"]))
